@@ -16,7 +16,9 @@ DECIDES = ("Decided: structural facts about the four ERROR_REGEX patterns on the
            "get_filename returns, ends in the translator's file extension, accepts the path alphabet; a mandatory "
            "severity literal 'error:'/'Error:' so warnings and notes cannot match; message group distinct from the "
            "file group), the order of operations of analyze_compiler_output (crash test first, filters applied to the "
-           "text that findall receives, grouping by file), check_oracle consulting crash_msg before the map, and the "
+           "text that findall receives, grouping by file), check_oracle consulting crash_msg before the map, that the "
+           "mandatory part of each pattern (literals and classes, optional parts relaxed - an over-approximation of "
+           "re.search computed on the regex AST) admits the compiler's minimal diagnostics, and the "
            "agreement between the path stored as oracle key and the compiler's input glob.")
 NOT_DECIDED = "exactness on every possible compiler output (needs the compilers' output grammar)."
 
